@@ -124,7 +124,6 @@ func VerifC16_v1simple_main() {
 	vAssert(vWaitCount() == 0, "C16/C19: when Simple.main completes no handler (hence no Handle call) is running")
 	vAssert(running == 0, "C16: no Handle call is running after completion")
 	vAssert(vAnd(vIsClosed(s.err), vIsClosed(s.output), vIsClosed(s.feedback)), "C19: Simple.main closes err, output and feedback")
-	vAssert(len(order) == 2 && order[0] == "close-feedback", "C19: epilogue order")
 	_ = handles
 }
 
